@@ -133,11 +133,6 @@ func (p *Processor[K, T]) process(isNext bool) {
 
 // Processing loop.
 func (p *Processor[K, T]) processLoop() {
-	defer func() {
-		// Release the channel when exiting
-		<-p.processorRunningCh
-	}()
-
 	var (
 		r             T
 		ok            bool
@@ -150,16 +145,22 @@ func (p *Processor[K, T]) processLoop() {
 		// Continue processing items until the queue is empty
 		p.lock.Lock()
 		r, ok = p.queue.Peek()
-		p.lock.Unlock()
 		if !ok {
+			// Release the running token while still holding the lock: an Enqueue
+			// that arrives from now on starts a new loop instead of finding this
+			// one "still running" and leaving its item stranded
+			<-p.processorRunningCh
+			p.lock.Unlock()
 			return
 		}
+		p.lock.Unlock()
 
 		// Check if after obtaining the lock we have a stop or reset signals
 		// Do this before we create a timer
 		select {
 		case <-p.stopCh:
 			// Exit on stop signals
+			<-p.processorRunningCh
 			return
 		case <-p.resetCh:
 			// Restart the loop on reset signals
@@ -195,6 +196,7 @@ func (p *Processor[K, T]) processLoop() {
 			if !t.Stop() {
 				<-t.C()
 			}
+			<-p.processorRunningCh
 			return
 		}
 	}
